@@ -1,9 +1,9 @@
 SPECIFICATION Spec
 CONSTANTS
   EncoderBuffer = "fresh"
-  EncodeVar = "own"
-  Encoders = {"application/json", "application/problem+json"}
-  NoEncoder = "forward"
+  EncodeVar = "captured"
+  Encoders = {"application/json"}
+  NoEncoder = "reject"
   CloseBinding = "at_defer"
   Small = TRUE
   MTs = {"application/json", "application/problem+json"}
